@@ -96,35 +96,36 @@ def _canon(e: ast.expr, env: Dict[str, ast.expr], depth=0) -> str:
     return src(e)
 
 
-def curvature_test_ok(f: Func) -> Tuple[bool, str]:
+def curvature_test_ok(f: Func, ctx=None) -> Tuple[bool, str]:
     """is_update_X_and_G(xk, gk, x_old, g_old, eps) returns True exactly under  s.y > eps * y.y"""
+    from ..flow import Expander
     ps = f.params
     if len(ps) < 5:
         return False, "signature changed"
     xk, gk, xo, go, eps = ps[:5]
-    env: Dict[str, ast.expr] = {}
-    for s in walk_no_nested(f.node):
-        if isinstance(s, (ast.Assign, ast.AnnAssign)) and getattr(s, "value", None) is not None:
-            t = s.targets[0] if isinstance(s, ast.Assign) else s.target
-            if isinstance(t, ast.Name):
-                env[t.id] = s.value
-    want_pos = [f"dot(sub({gk},{go}),sub({xk},{xo}))", f"dot(sub({go},{gk}),sub({xo},{xk}))"]
-    want_yy = [f"dot(sub({gk},{go}),sub({gk},{go}))", f"dot(sub({go},{gk}),sub({go},{gk}))"]
-    rets_true = [r for r in walk_no_nested(f.node) if isinstance(r, ast.Return) and isinstance(r.value, ast.Constant) and r.value.value is True]
-    tests = [s for s in walk_no_nested(f.node) if isinstance(s, ast.If)]
-    conds: List[ast.expr] = [t.test for t in tests]
-    direct = [r.value for r in walk_no_nested(f.node) if isinstance(r, ast.Return) and isinstance(r.value, ast.Compare)]
-    cands = conds + direct
+    ex = Expander(ctx, f)
+    want_pos = {sorted_dot(f"dot(sub({gk},{go}),sub({xk},{xo}))"), sorted_dot(f"dot(sub({go},{gk}),sub({xo},{xk}))")}
+    want_yy = {f"dot(sub({gk},{go}),sub({gk},{go}))", f"dot(sub({go},{gk}),sub({go},{gk}))"}
+    cands: List[ast.expr] = []
+    for n in walk_no_nested(f.node):
+        if isinstance(n, ast.If):
+            cands.append(ex.expand_at(n.test, n.test))
+        if isinstance(n, ast.Return) and n.value is not None and not isinstance(n.value, ast.Constant):
+            v = ex.expand_at(n, n.value)
+            if isinstance(v, ast.IfExp) and isinstance(v.body, ast.Constant) and v.body.value is True and \
+                    isinstance(v.orelse, ast.Constant) and v.orelse.value is False:
+                v = v.test
+            if isinstance(v, ast.Call) and dotted(v.func) == "bool" and v.args:
+                v = v.args[0]
+            cands.append(v)
     for c in cands:
         if isinstance(c, ast.Compare) and len(c.ops) == 1:
-            l, r = _canon(c.left, env), _canon(c.comparators[0], env)
+            l, r = sorted_dot(_canon(c.left, {})), _canon(c.comparators[0], {})
             op = type(c.ops[0])
             if op is ast.Lt:
-                l, r, op = r, l, ast.Gt
-            if op is ast.Gt and l in [sorted_dot(x) for x in want_pos] + want_pos and \
-                    any(r == "mul(" + ",".join(sorted([eps, yy])) + ")" for yy in want_yy + [sorted_dot(x) for x in want_yy]):
-                # the True return must be on the true side
-                return True, f"`{short(c)}` == s.y > {eps} * y.y (strict)"
+                l, r, op = sorted_dot(_canon(c.comparators[0], {})), _canon(c.left, {}), ast.Gt
+            if op is ast.Gt and l in want_pos and any(r == "mul(" + ",".join(sorted([eps, yy])) + ")" for yy in want_yy):
+                return True, f"`{short(c, 90)}` == s.y > {eps} * y.y (strict)"
             if op in (ast.GtE, ast.LtE):
                 return False, f"`{short(c)}` is not strict: a pair with s.y == eps*y.y (e.g. s.y = 0 = y) is accepted and B loses positive definiteness"
     return False, "no comparison  s.y > eps * y.y  found on the accepted pair: " + "; ".join(short(c, 60) for c in cands[:3])
@@ -172,6 +173,11 @@ def _parent_body(fn: ast.FunctionDef, node: ast.AST) -> Optional[List[ast.stmt]]
 
 def _bound_form(t: ast.expr, cname: str) -> Optional[str]:
     """'post' for len(C) > maxcor + 1 (and equivalents), 'pre' for len(C) > maxcor (and equivalents)"""
+    if isinstance(t, ast.Compare) and len(t.ops) == 1 and isinstance(t.comparators[0], ast.Call) and \
+            dotted(t.comparators[0].func) == "len" and not (isinstance(t.left, ast.Call) and dotted(t.left.func) == "len"):
+        flip = {ast.Lt: ast.Gt, ast.Gt: ast.Lt, ast.LtE: ast.GtE, ast.GtE: ast.LtE, ast.Eq: ast.Eq}
+        if type(t.ops[0]) in flip:
+            t = ast.Compare(left=t.comparators[0], ops=[flip[type(t.ops[0])]()], comparators=[t.left])
     if not (isinstance(t, ast.Compare) and len(t.ops) == 1 and isinstance(t.left, ast.Call) and dotted(t.left.func) == "len"
             and t.left.args and src(t.left.args[0]) == cname):
         return None
@@ -195,7 +201,7 @@ def rule_mem(ctx: Ctx) -> List[Ob]:
     conts = _containers(ctx)
     need(len(conts) >= 5, f"MEM: only {len(conts)} history scopes found")
     isup = ctx.repo.func("bfgsmats.is_update_X_and_G")
-    ok, why = curvature_test_ok(isup)
+    ok, why = curvature_test_ok(isup, ctx)
     obs.append(ob("MEM", "curvature test is  s.y > eps * y.y  (strict) on one pair", isup, isup.node, ok, why,
                   construct="is_update_X_and_G: acceptance condition"))
     n_ins = 0
@@ -300,15 +306,19 @@ def _classify_insertion(ctx, f, cfg, n: Node, c: ast.Call, cname, other, Xn, Gn,
             if n not in reach:
                 return "seed", f"only reachable when `{short(at)}` says the history is empty"
     # guarded: only reachable through a successful curvature test on the inserted pair
+    from ..flow import Expander
+    ex = Expander(ctx, f)
     for t in cfg.nodes:
-        if t.kind != "test" or not isinstance(t.ast, ast.Call):
+        if t.kind != "test":
             continue
-        if not (dotted(t.ast.func) or "").endswith("is_update_X_and_G"):
+        tcall = ex.expand(t, t.ast, 4) if isinstance(t.ast, ast.Name) else t.ast
+        if not isinstance(tcall, ast.Call) or not (dotted(tcall.func) or "").endswith("is_update_X_and_G"):
             continue
         reach = cfg.reachable(cfg.entry, follow_exc=False, edge_ok=lambda a, b, lab: not (a is t and lab is True))
         if n in reach:
             continue
-        b = bind_args(t.ast, isup.node)
+        tcall = ex.expand(t, tcall, 4)
+        b = bind_args(tcall, isup.node)
         ps = isup.params
         end = "[-1]" if meth == "append" else "[0]"
         # the pair tested = (inserted point, inserted gradient) vs the adjacent end of the same containers
@@ -320,11 +330,12 @@ def _classify_insertion(ctx, f, cfg, n: Node, c: ast.Call, cname, other, Xn, Gn,
                 twin = s.value.args[0]
         xv, gv = (val, twin) if cname == Xn else (twin, val)
         got = [src(b.get(p)) if b.get(p) is not None else None for p in ps[:5]]
-        exp = [src(xv) if xv is not None else None, src(gv) if gv is not None else None, f"{Xn}{end}", f"{Gn}{end}"]
+        exp = [src(ex.expand(n, xv, 4)) if xv is not None else None, src(ex.expand(n, gv, 4)) if gv is not None else None,
+               f"{Xn}{end}", f"{Gn}{end}"]
         if got[:4] == exp:
             e = b.get(ps[4])
-            return "guarded", f"reachable only if `{short(t.ast, 70)}` holds; tested pair == inserted pair vs {Xn}{end}, {Gn}{end}; eps <- {short(e)}"
-        return None, f"guard `{short(t.ast, 70)}` tests ({got[:4]}) but the inserted pair / adjacent end is ({exp})"
+            return "guarded", f"reachable only if `{short(tcall, 70)}` holds; tested pair == inserted pair vs {Xn}{end}, {Gn}{end}; eps <- {short(e)}"
+        return None, f"guard `{short(tcall, 70)}` tests ({got[:4]}) but the inserted pair / adjacent end is ({exp})"
     return None, "no path condition shows the container is empty and no curvature test guards this insertion"
 
 
@@ -464,8 +475,8 @@ def rule_seed(ctx: Ctx) -> List[Ob]:
         nm = src(out)
         seeds = []
         for s in walk_no_nested(f.node):
-            if isinstance(s, ast.Assign):
-                tg, vs = s.targets[0], s.value
+            if isinstance(s, (ast.Assign, ast.AnnAssign)) and getattr(s, "value", None) is not None:
+                tg, vs = (s.targets[0] if isinstance(s, ast.Assign) else s.target), s.value
                 pairs = list(zip(tg.elts, vs.elts)) if isinstance(tg, ast.Tuple) and isinstance(vs, ast.Tuple) else [(tg, vs)]
                 for t, v in pairs:
                     if src(t) == nm:
